@@ -277,6 +277,17 @@ impl G {
             }
             "multi" => {
                 let ms = ty["ms"].as_array().unwrap().clone();
+                // `it $ sentinel f`: the initial value has a type the reducer never returns; over an iterator
+                // that is empty at run time the result IS the sentinel
+                let sentinel = ms.iter().find(|m| **m == tvoid() || **m == tstr()).cloned();
+                let its = self.vars_of(&titer(tint()));
+                if let (Some(st), true, false) = (sentinel, ms.contains(&tint()) && d > 0 && self.rng.chance(1, 3), its.is_empty()) {
+                    let init = if st == tvoid() { unit() } else { string("none") };
+                    let f = json!({"k": "fn", "ps": [p("a", tmulti(vec![tint(), st])), p("b", tint())], "r": tint(), "body": [
+                        json!({"k": "ifset", "n": "n", "ty": tint(), "e": var("a"), "t": block(vec![ret(bin("+", var("n"), var("b")))]), "f": none()}),
+                        ret(var("b"))]});
+                    return json!({"k": "reduce", "it": var(&self.pick(&its)), "init": init, "f": f});
+                }
                 let m = ms[self.rng.below(ms.len())].clone();
                 self.expr_of(&m, d)
             }
@@ -518,7 +529,41 @@ impl G {
         let cont = json!({"k": "continue"});
         let arg_s = string("s");
         let calls = |name: &str| vec![set("r1", call(var(name), vec![arg_s.clone()])), set("r2", call(var(name), vec![int(1)])), tup(vec![var("r1"), var("r2")])];
-        match self.rng.below(12) {
+        match self.rng.below(18) {
+            // an expression whose static type is a union, holding at run time the NON-int member, used where only
+            // an int may be used: rejected today; a checker that forgets a member of some result type accepts it
+            12..=17 => {
+                let srcs = 9;
+                let isint = |acc: &str, x: &str| json!({"k": "fn", "ps": [p(acc, u.clone()), p(x, tint())], "r": tint(), "body": [
+                    json!({"k": "ifset", "n": "n", "ty": tint(), "e": var(acc), "t": block(vec![ret(bin("+", var("n"), var(x)))]), "f": none()}), ret(var(x))]});
+                let empty_it = json!({"k": "iter", "e": hide(tarr(tint()), arr(vec![]))});
+                let hs = hide(u.clone(), string("s"));
+                let hb = hide(tbool(), boolean(false));
+                let (pre, e): (Vec<Value>, Value) = match self.rng.below(srcs) {
+                    0 => (vec![], json!({"k": "reduce", "it": empty_it, "init": string("none"), "f": isint("a", "b")})),
+                    1 => (vec![set("w", hs.clone())], var("w")),
+                    2 => (vec![], json!({"k": "if", "c": hb, "t": block(vec![int(1)]), "f": block(vec![string("s")])})),
+                    3 => (vec![], json!({"k": "match", "e": hs.clone(), "arms": [{"k": "ty", "n": "x", "ty": tint(), "b": block(vec![var("x")])}, {"k": "other", "b": block(vec![string("t")])}]})),
+                    4 => (vec![json!({"k": "fndecl", "n": "mk", "ps": [], "r": u.clone(), "body": [ret(string("s"))]})], call(var("mk"), vec![])),
+                    5 => (vec![set("ar", hide(tarr(u.clone()), arr(vec![string("s"), int(1)])))], json!({"k": "at", "e": var("ar"), "i": int(0)})),
+                    6 => (vec![set("c", json!({"k": "mut", "ty": u.clone(), "e": string("s")}))], json!({"k": "deref", "e": var("c")})),
+                    7 => (vec![set("tp", hide(ttup(vec![u.clone(), tint()]), tup(vec![string("s"), int(1)])))], json!({"k": "tupat", "e": var("tp"), "i": 0})),
+                    _ => (vec![], json!({"k": "ifset", "n": "x", "ty": tfloat(), "e": hide(tmulti(vec![tint(), tfloat()]), int(1)), "t": block(vec![int(1)]), "f": block(vec![string("s")])})),
+                };
+                let sink = match self.rng.below(7) {
+                    0 => bin("+", e, int(1)),
+                    1 => bin("*", int(2), e),
+                    2 => json!({"k": "at", "e": arr(vec![int(1), int(2)]), "i": e}),
+                    3 => json!({"k": "rep", "v": int(0), "len": e}),
+                    4 => bin("<", e, int(3)),
+                    5 => bin("&", e, int(3)),
+                    _ => json!({"k": "neg", "e": e}),
+                };
+                let mut prog = pre;
+                prog.push(set("r", sink));
+                prog.push(var("r"));
+                prog
+            }
             // a function that can fall off its end: the exit is hidden in a type-test branch / match arm / nested block
             0..=3 => {
                 let exit = if self.rng.chance(1, 3) { cont.clone() } else { brk.clone() };
